@@ -83,6 +83,9 @@ func (s *verifStat16) OnEntryPassed(ctx *base.EntryContext) {
 func (s *verifStat16) OnEntryBlocked(ctx *base.EntryContext, b *base.BlockError) {
 	s.log.add(4, s.id)
 	s.blkOK = b != nil
+	if s.mode == 1 {
+		panic("stat slot panics")
+	}
 }
 func (s *verifStat16) OnCompleted(ctx *base.EntryContext) { s.log.add(5, s.id) }
 
@@ -146,7 +149,7 @@ func VerifC16() {
 	}
 	// ---- reference run (Appendix B.5) ----
 	var want []int
-	prepPanic, statPanic := false, false
+	prepPanic, statPanic, blockedPanic := false, false, false
 	for _, i := range verifStableOrder(po) {
 		want = append(want, 100+i)
 		if ps[i].mode == 1 {
@@ -169,6 +172,10 @@ func VerifC16() {
 		for _, i := range verifStableOrder(so) {
 			if blocker >= 0 {
 				want = append(want, 400+i)
+				if ss[i].mode == 1 {
+					statPanic, blockedPanic = true, true // a panic while the block is being reported: the request is admitted
+					break
+				}
 			} else {
 				want = append(want, 300+i)
 				if ss[i].mode == 1 {
@@ -182,7 +189,7 @@ func VerifC16() {
 	e, blk := Entry("R16", WithSlotChain(sc))
 	rt.Reach("c16.entered")
 	rt.Assert((e != nil) != (blk != nil), "exactly one of entry and block error")
-	rt.Assert((blk != nil) == (blocker >= 0), "blocked iff some rule-check slot blocked before any panic; a request is admitted after any slot panic")
+	rt.Assert((blk != nil) == (blocker >= 0 && !blockedPanic), "blocked iff some rule-check slot blocked and no slot panicked; a request is admitted after any slot panic")
 	same := len(log.calls) == len(want)
 	if same {
 		for i := range want {
@@ -190,7 +197,7 @@ func VerifC16() {
 		}
 	}
 	rt.Assert(same, "slots run in ascending order (insertion order on ties), rule checks stop at the first block, every statistic slot is told the outcome once")
-	if blk != nil && blocker >= 0 {
+	if blk != nil && blocker >= 0 && !blockedPanic {
 		rt.Assert(blk.BlockMsg() == verifMsgs[blocker] && blk.BlockType() == base.BlockTypeFlow+base.BlockType(blocker), "the first blocking slot determines the block error")
 		rt.Assert((blk.TriggeredRule() != nil) == (cs[blocker].inplace == 2), "the block error carries the rule of the blocking slot, if it gave one")
 		for _, s := range ss {
